@@ -4,7 +4,7 @@ from infra import *
 
 PROGS = {"can-listener": "CAN_LISTENER", "can-talker": "CAN_TALKER", "cvf-listener": "CVF_LISTENER", "aaf-listener": "AAF_LISTENER",
          "crf-listener": "CRF_LISTENER", "hello-listener": "HELLO_LISTENER", "vss-listener": "VSS_LISTENER",
-         "aaf-talker": "AAF_TALKER", "crf-talker": "CRF_TALKER", "hello-talker": "HELLO_TALKER", "vss-talker": "VSS_TALKER"}
+         "aaf-talker": "AAF_TALKER", "crf-talker": "CRF_TALKER", "hello-talker": "HELLO_TALKER", "vss-talker": "VSS_TALKER", "cvf-talker": "CVF_TALKER"}
 
 def build_xh(wd, prog, sanitize=False):
     exe = os.path.join(wd, "xh_%s%s" % (prog, "_asan" if sanitize else ""))
